@@ -1,6 +1,7 @@
 (* C13 — the runner returns one result per checked payload, never a stale cached one.
    Property theorems only; proofs live in Proofs/RunnerProofs.v. *)
 From Verif Require Import Base.Util Model.Runner Proofs.RunnerProofs Gen.Generated.
+From Verif Require Import Base.GenIR Gen.GeneratedTr Proofs.GenTrRunner.
 Open Scope N_scope.
 
 (* Unflatten: for every slice and every batch size >= 1 the groups concatenate to the slice,
@@ -156,6 +157,68 @@ Theorem C13_checker_sound :
   forall sc cexp wlimit all, C13_check sc cexp wlimit all = true -> C13_spec sc cexp wlimit all.
 Proof. exact C13_check_sound. Qed.
 Print Assumptions C13_checker_sound.
+
+Section GenTie.
+Local Open Scope Z_scope.
+(* ---- Tie to the source by translation (Gen/GeneratedTr.v, regenerated from /repo on every run by gen/translate.go) ----
+   g_* are the decision terms translated from the CURRENT Go code: every condition, the branch structure and which
+   white-listed effect statement runs on which path.  The theorems below state that the model's functions - about
+   which every theorem above speaks - are the interpretation of these terms. *)
+(* Runner.parallelCheck, loop over the payloads: the model's hit is the interpretation of the generated body: a cached result is served only for the same work id (key), check block number and block hash *)
+Theorem C13_gen_cache_hit_decisions :
+  forall c now p,
+  let g := cache_get c now (pl_wid p) in
+  hit c now p =
+  match g_runner_lookup_body (risSome g) (Z.of_N (r_blk (rget g))) (Z.of_N (pl_blk p))
+                             (Z.of_N (r_hash (rget g))) (Z.of_N (pl_hash p)) with
+  | ([1], Cont) => g
+  | _ => None
+  end.
+Proof. exact gen_runner_lookup_body. Qed.
+Print Assumptions C13_gen_cache_hit_decisions.
+
+(* Runner.wrapAggregate: a successful batch is counted and its results aggregated, a failed one records the error *)
+Theorem C13_gen_aggregate_decisions :
+  forall ok : bool,
+  g_runner_aggregate ok = if ok then ([1; 2], Fall) else ([3; 4], Fall).
+Proof. exact gen_runner_aggregate. Qed.
+Print Assumptions C13_gen_aggregate_decisions.
+
+(* Runner.wrapAggregate, per result: the model's fill1 is the interpretation: only state 0 is cached, only when absent or for a strictly higher check block; every result of a successful batch is returned *)
+Theorem C13_gen_cache_fill_decisions :
+  forall cexp c now r,
+  let old := cache_get c now (r_wid r) in
+  let d := g_runner_aggregate_body (Z.of_N (r_state r)) (risSome old) (Z.of_N (r_blk r)) (Z.of_N (r_blk (rget old))) in
+  snd d = Fall /\ existsb (Z.eqb 2) (fst d) = true /\
+  fill1 cexp c now r = if existsb (Z.eqb 1) (fst d) then cache_set cexp c now (r_wid r) r else c.
+Proof. exact gen_runner_aggregate_body. Qed.
+Print Assumptions C13_gen_cache_fill_decisions.
+
+(* Runner.parallelCheck, whole function: the call fails exactly when there were pipeline calls, all of them failed and an error was recorded - the model's finish *)
+Theorem C13_gen_error_iff_all_failed :
+  forall (pipe : list job -> list result) (bfail : list job -> bool) hits (done : list (list job)),
+  let total := Z.of_nat (length done) in
+  let failures := Z.of_nat (length (filter bfail done)) in
+  finish pipe bfail hits done =
+  match g_runner_parallelCheck 1 total total failures (negb (failures =? 0)) with
+  | (_, RetO 2) => ErrAll
+  | _ => match done with
+         | [] => Ok hits
+         | _ => Ok (hits ++ flat_map pipe (filter (fun b => negb (bfail b)) done))
+         end
+  end.
+Proof. exact gen_runner_parallelCheck. Qed.
+Print Assumptions C13_gen_error_iff_all_failed.
+
+(* Runner.parallelCheck: no payloads, or everything served from the cache: no pipeline call *)
+Theorem C13_gen_shortcuts :
+  forall n t f (e : bool),
+  g_runner_parallelCheck 0 n t f e = ([], RetO 1) /\
+  (forall p, p <> 0 -> g_runner_parallelCheck p 0 t f e = ([1], RetO 1)).
+Proof. exact gen_runner_parallelCheck_shortcuts. Qed.
+Print Assumptions C13_gen_shortcuts.
+
+End GenTie.
 
 (* Non-vacuity: 12 payloads, the first one cached from an earlier call; two batches (10 + 1), the
    second completes first and the first fails: the call returns the hit and one fresh result. *)
